@@ -67,9 +67,9 @@ def gen(seed, tier="quick"):
         style = r.choice(("new", "new", "new", "old", "none"))
         kind = "fn"
         if style == "new":
-            kind = r.choice(("fn", "fn", "method", "cm_outer", "cm_inner", "sm_outer", "dc", "gen"))
+            kind = r.choice(("fn", "fn", "method", "cm_outer", "cm_inner", "sm_outer", "dc", "gen", "coro"))
         elif style == "none":
-            kind = r.choice(("fn", "fn", "method", "gen"))
+            kind = r.choice(("fn", "fn", "method", "gen", "coro"))
         params = [[f"x{j}", r.choice(arrs)] for j in range(r.randrange(1, 4))]
         unannotated = r.random() < 0.2  # nothing for the typechecker to do: the context must exist all the same
         if unannotated:
@@ -77,7 +77,7 @@ def gen(seed, tier="quick"):
         if r.random() < 0.5:
             params.append(["k", None])
         fns[f"F{i}"] = {"style": style, "tc": r.choice(("tg", "tg", "bt", "min")), "kind": kind, "params": params,
-                        "ret": r.choice(arrs) if (kind not in ("dc", "gen") and not unannotated and r.random() < 0.6) else None}
+                        "ret": r.choice(arrs) if (kind not in ("dc", "gen", "coro") and not unannotated and r.random() < 0.6) else None}
     ctr = [0]
     prog = _block(r, g, arrs, fns, _pref(r), 0, r.randrange(3, 8), None, ctr)
     # top-level statelessness probes: the same name against two sizes, both must pass
@@ -128,13 +128,13 @@ def _block(r, g, arrs, fns, pref, depth, n, kparam, ctr):
             f = fns[fid]
             np_ = dict(_pref(r), k=r.randrange(1, 5))
             has_k = any(p[0] == "k" for p in f["params"])
-            if f["kind"] == "gen":
+            if f["kind"] in ("gen", "coro"):
                 ctr[0] += 1
                 var = f"g{ctr[0]}"
                 body = []
                 for _ in range(r.randrange(1, 4)):
                     body.append({"op": "obs"})
-                    if r.random() < 0.6:
+                    if r.random() < 0.6 and f["kind"] == "gen":
                         body.append({"op": "yield"})
                 ops.append({"op": "call", "fn": fid, "args": _args_for(r, g, f, np_, 0.1), "kw": r.choice((0, 1, 2)),
                             "body": body, "ret": None, "exit": "ret" if r.random() < 0.8 else ["raise", r.choice(EXITS)],
@@ -288,8 +288,8 @@ class Observer:
             if self._fired() != ent["fired"]:
                 return "fault:" + out["exc"]
             return "exc:" + out["exc"]
-        if op["op"] == "call" and self.scn["fns"][op["fn"]]["kind"] == "gen":
-            return "generator"
+        if op["op"] == "call" and self.scn["fns"][op["fn"]]["kind"] in ("gen", "coro"):
+            return "generator" if self.scn["fns"][op["fn"]]["kind"] == "gen" else "coroutine"
         return "return"
 
     def _param_model(self, op):
@@ -312,7 +312,7 @@ class Observer:
         names = [p[0] for p in f["params"]]
         first = {"method": ["self"], "cm_outer": ["cls"], "cm_inner": ["cls"], "dc": ["self"]}.get(f["kind"], [])
         args = sorted(first + names)
-        if f["kind"] == "gen":
+        if f["kind"] in ("gen", "coro"):
             return None, None  # body runs later, in the resuming block's context
         if f["style"] == "none":
             return {}, args
@@ -352,7 +352,7 @@ class Observer:
                         what="error-class")
             return
         # own arguments are consistent: must get into the body whatever the caller has bound
-        if f["kind"] == "gen":
+        if f["kind"] in ("gen", "coro"):
             if got_exc is not None:
                 self._v("verdict", {"path": path, "flavour": flavour, "what": "generator-producing call with consistent arguments failed",
                                     "got": out}, what="rejects-consistent")
